@@ -639,14 +639,25 @@ fn sim_trap(mal_len: u8, after: u8, input: &[u8], output: &mut String) -> Contro
         });
     });
     match d {
-        0..=2 => {
+        0 | 2 => {
             if d == 2 {
                 nested_decode(Probe::NestedDecodeInTrap);
             }
             probe(Probe::TrapContinueNothing);
             ControlFlow::Continue(())
         }
-        3 | 4 => {
+        // the callback may modify the output as it likes: it takes text back
+        1 => {
+            probe(Probe::TrapShrinksOutput);
+            output.pop();
+            ControlFlow::Continue(())
+        }
+        4 => {
+            probe(Probe::TrapShrinksOutput);
+            output.clear();
+            ControlFlow::Continue(())
+        }
+        3 => {
             probe(Probe::TrapContinueFffd);
             output.push('\u{FFFD}');
             ControlFlow::Continue(())
@@ -835,8 +846,12 @@ fn ref_expect(b: &[u8], trap: &str, calls: &[TrapCall]) -> (Expect, usize, Optio
                         }
                     }
                     match c.decision {
-                        0..=2 => {}
-                        3 | 4 => out.push('\u{FFFD}'),
+                        0 | 2 => {}
+                        1 => {
+                            out.pop();
+                        }
+                        4 => out.clear(),
+                        3 => out.push('\u{FFFD}'),
                         5 => out.push_str(BIG),
                         6 => return (Expect::Decode(strict_msg(off, &bad)), n_calls, arg_mismatch),
                         _ => return (Expect::Decode("trap says no".into()), n_calls, arg_mismatch),
